@@ -32,7 +32,7 @@ Requests == {[upgrade |-> u, accept |-> a, method |-> m, doc |-> d, def |-> f, o
 \* NIP-11 document shapes: which optional parts are present, and how kinds are written
 Fields == {"name", "description", "pubkey", "contact", "supported_nips", "software", "version", "limitation",
            "retention", "relay_countries", "language_tags", "tags", "posting_policy", "payments_url", "fees", "icon"}
-KindShapes == {"single", "pair", "pair-equal", "mixed", "none"}
+KindShapes == {"single", "pair", "pair-equal", "mixed", "zero-bound", "none"}
 DocShapes == {[fields |-> fs, kinds |-> ks] : fs \in {{}} \cup {{f} : f \in Fields} \cup {{f, g} : f \in Fields, g \in {"limitation", "retention", "fees"}} \cup {Fields},
                                                 ks \in KindShapes}
 
